@@ -73,7 +73,8 @@ CLAIMED = {
               "retires exactly one), raising (an admission brings the permits up to the target), FIFO hand-over to the first "
               "pending waiter, an exit at or below the limit serves the head of the queue, globally nobody overtakes a waiting "
               "worker (whoever holds, was admitted or was handed a permit entered before every worker still queued - for every "
-              "sequence with distinct workers, any cancellations and limit changes), target <= 0 refuses entry. "
+              "sequence with distinct workers, any cancellations and limit changes), every queued worker is served after at most "
+              "excess + position + 1 exits of holders (no step but set_target delays it, every exit brings it one step nearer), target <= 0 refuses entry. "
               "Tie: trace acceptance against the real object, one event-loop handle per label, every field compared after "
               "every label. Session level (model/Throttle.v): the request-processing coroutines _throttled_request / _throttled_message "
               "as lists of suspension points REGENERATED FROM THE SOURCE on every run (enter / leave the limiter's block, "
